@@ -3,6 +3,7 @@ events (table / placeholder / label clauses)."""
 from __future__ import annotations
 
 import ast
+import re
 from typing import Any, Optional
 
 from ..cfg import ENTRY
@@ -708,7 +709,13 @@ def r58(rep: Report, ctx: Ctx) -> None:
     lookups = [c for c in ast.walk(loop) if isinstance(c, ast.Call)
                and isinstance(c.func, ast.Subscript)
                and unparse(c.func.value) == "OPERATOR_PATH_FUNCTION_MAP"]
-    ok = len(lookups) == 1 and [unparse(a) for a in lookups[0].args] == [idx]
+    # the path functions only ask "is this the first branch?" (argument 0
+    # -> no separator) and number the separator node; the branch index and
+    # "nodes ordered so far - 1" answer that question alike (triaged: the
+    # second spelling is behaviour-preserving)
+    ok = len(lookups) == 1 and len(lookups[0].args) == 1 and (
+        unparse(lookups[0].args[0]) == idx or re.fullmatch(
+            r"len\(\w+\) - 1", unparse(lookups[0].args[0])) is not None)
     rep.ob("R5.8", "the separator is chosen by the branch index", ok, fi=fi,
            node=lookups[0] if lookups else loop,
            detail=unparse(lookups[0])[:90] if lookups else "<missing>")
@@ -1045,8 +1052,13 @@ def r512(rep: Report, ctx: Ctx) -> None:
     cen = ctx.func("PUMLGraph.create_event_node")
     refs = [c for c in ast.walk(cen.node) if isinstance(c, ast.Call)
             and call_name(c) == "add_parent_graph_node_to_node_ref"]
-    ok = len(refs) == 1 and cguards(ctx, cen, refs[0]) in (
-        [("cmp", "parent_graph_node", "IsNot", "None")], [])
+    # (a node created WITH its body need not be registered: the registry is
+    # read only while bodies are attached - triaged, DESIGN section 12)
+    from ..roles import Roles
+    gs = Roles(ctx, cen).guards(refs[0]) if len(refs) == 1 else None
+    ok = gs is not None and [g for g in gs if g != (
+        "cmp", "P:sub_graph", "Is", "None", "1")] in (
+        [("cmp", "P:parent_graph_node", "Is", "None", "0")], [])
     rep.ob("R5.12", "an event node is registered under the walked-graph node "
            "it stands for", ok, fi=cen, node=refs[0] if refs else cen.node,
            detail="add_parent_graph_node_to_node_ref(parent_graph_node, node) "
